@@ -102,6 +102,7 @@ def run(ctx):
     n = ctx.budget(70, 900)
     cases = [c for c in (gen_case(rng, i) for i in range(n)) if c is not None]
     cases += [gen_nyquist_case(rng, i) for i in range(ctx.budget(18, 120))]
+    reverse_order_probe(ctx, "procgen", "impl_result_only", cases, "curve-independent-of-other-records", "hvsrpy.process in another order / fresh interpreter", sample=24)
     outs = run_driver([pg.model_line(c) for c in cases])
     for c, o in zip(cases, outs):
         im = pg.run_impl(c)
